@@ -77,6 +77,13 @@ def faults(tag, base, info):
     # undefined symbol
     add("undefined-symbol/intermediate", base + f"und1 = {S}*nowhere\n", name="nowhere")
     add("undefined-symbol/derivative", base.replace(f"{D} = {DR}\n", f"{D} = {DR} + nowhere\n"), name="nowhere")
+    # undefined symbol inside the VALUE of a declaration (parameters / states / ScalarParam)
+    add("undefined-symbol/parameter-value", base + "parameters(pv1=0.5*nowhere)\n" + f"und2 = pv1*{S}\n", name="nowhere")
+    add("undefined-symbol/state-value", base + "states(sv1=nowhere)\ndsv1_dt = -sv1\n", name="nowhere")
+    add("undefined-symbol/scalarparam-value", base + 'parameters(pv2=ScalarParam(nowhere/2, unit="mV"))\n' + f"und3 = pv2 + {S}\n", name="nowhere")
+    # missing derivative of a state whose component holds no assignment at all
+    add("missing-derivative/component-without-assignments", base + 'states("Lonely", lone=0.1)\n', name="dlone_dt")
+    add("missing-derivative/two-states-one-derivative", base + "states(m1=0.1, m2=0.2)\ndm1_dt = -m1\n", name="dm2_dt")
     # cycles
     add("cycle/1", base + "c1 = c1 + 1\n", name="c1")
     add("cycle/2", base + f"c1 = c2 + {S}\nc2 = c1*2\n", name="c1")
